@@ -21,3 +21,41 @@ Theorem C02_uint_id_legacy_refuted :
   unmarshal_uint_id_legacy (GInt (-1)) = Ok 18446744073709551615 /\ num_of (GInt (-1)) = Some (-1).
 Proof. exact uint_id_legacy_refuted_lemma. Qed.
 Print Assumptions C02_uint_id_legacy_refuted.
+
+(** * The argument / input-object layer *)
+From GV Require Import Model.Args Proofs.ArgsProofs.
+
+(** For every input schema, every type, every value gqlparser hands over after validation and every
+    nesting depth: gqlgen's coercion (args.gotpl, input.gotpl, type.gotpl, CoerceList) agrees with the
+    specification's input coercion - the same error path, or a received value that shows the coerced value:
+    field defaults applied exactly for absent keys, explicit null kept, single values wrapped into lists at
+    every list level, nested input objects, enums, ID from integers. *)
+Theorem C02_args_equiv : forall sch fuel t v, valid_in sch fuel t v = true ->
+  agree (coerce_spec sch fuel t v) (coerce_impl sch fuel t v).
+Proof. exact args_equiv_lemma. Qed.
+Print Assumptions C02_args_equiv.
+
+(** Omitted versus explicit null is observable exactly through Omittable: "not set" iff the key is absent,
+    null iff null was given; a plain pointer shows nil for both. *)
+Theorem C02_omitted_vs_null : forall c fd provided rest,
+  if_default fd = None ->
+  match impl_obj_go c provided rest with
+  | COk (AObj b) =>
+      (lookup_val provided (if_name fd) = None ->
+       impl_obj_go c provided (fd :: rest) = COk (AObj ((if_name fd, if if_omittable fd then AOmitted else ANull) :: b)))
+      /\ (lookup_val provided (if_name fd) = Some VNull -> c (if_type fd) VNull = COk ANull ->
+          impl_obj_go c provided (fd :: rest) = COk (AObj ((if_name fd, ANull) :: b)))
+  | _ => True
+  end.
+Proof. exact omitted_vs_null_lemma. Qed.
+Print Assumptions C02_omitted_vs_null.
+
+Example C02_nonvacuous :
+  let sch := [("In", NInput [{| if_name := "a"; if_type := TyNamed "Int" false; if_default := None; if_omittable := true |};
+                             {| if_name := "wd"; if_type := TyNamed "Int" false; if_default := Some (VInt 7); if_omittable := true |};
+                             {| if_name := "l"; if_type := TyList (TyList (TyNamed "Int" true) true) false; if_default := None; if_omittable := false |}])] in
+  let v := VObj [("l", VInt 3); ("wd", VNull)] in
+  valid_in sch 9 (TyNamed "In" true) v = true
+  /\ coerce_impl sch 9 (TyNamed "In" true) v = COk (AObj [("a", AOmitted); ("wd", ANull); ("l", AList [AList [AInt 3]])])
+  /\ coerce_spec sch 9 (TyNamed "In" true) v = COk (AObj [("a", AOmitted); ("wd", ANull); ("l", AList [AList [AInt 3]])]).
+Proof. vm_compute. repeat split. Qed.
